@@ -1,10 +1,7 @@
 #!/bin/bash
-# tools/tryseed.sh <patch.diff> <ID> [tier]: apply a seeded change to /repo, run the check, revert.
+# tools/tryseed.sh <worktree-with-change-applied> <ID> [tier]: run a check against a private worktree of
+# /repo that carries a seeded change (VERIF_REPO), leaving /repo itself alone (other runs build from it).
 set -u
-patch=$1; id=$2; tier=${3:-quick}
+wt=$1; id=$2; tier=${3:-quick}
 cd /verif
-if [ -n "$(git -C /repo status --porcelain)" ]; then echo "/repo not clean"; exit 3; fi
-git -C /repo apply "$patch" || { echo "patch does not apply"; exit 3; }
-./check $id --tier $tier 2>&1 | grep -E "VIOLATION|KNOWN|tier=|INFRA|^  " | head -${LINES_MAX:-8} | cut -c1-260
-git -C /repo checkout -- .
-git -C /repo status --porcelain | head -3
+VERIF_REPO=$wt ./check $id --tier $tier 2>&1 | grep -E "VIOLATION|KNOWN|tier=|INFRA|^  " | head -${LINES_MAX:-8} | cut -c1-260
